@@ -9,7 +9,7 @@ from __future__ import annotations
 
 from typing import Any, Callable
 
-from exabgp.protocol.family import SAFI
+from exabgp.protocol.family import AFI, SAFI
 from exabgp.bgp.message.update.nlri.qualifier import RouteDistinguisher
 
 from exabgp.configuration.core import Section
@@ -100,6 +100,10 @@ class ParseFlowRoute(Section):
         pass
 
     def pre(self) -> bool:
+        # the family of a flow is the one of its own source / destination, not the one the tokeniser
+        # remembers from the route parsed before it: after an IPv6 route an IPv4 flow with `protocol`
+        # was refused as "not valid for IPv6 flow routes" (and the other way round for `next-header`)
+        self.parser.tokeniser.afi = AFI.undefined
         self.scope.append_route(flow())
         return True
 
